@@ -58,13 +58,14 @@ structure MemOk (m : Memory) : Prop where
 def SlotOk (s : Slot) : Prop :=
   InI64 s.counter ∧ match s.limit with | .up l => InI64 l | .down => True
 
-/-- the machine invariant of C05 -/
-structure VmInv (vm : Vm) : Prop where
+/-- the machine invariant of C05, at compute depth `d` (0 = top level, 1 = compute child) -/
+structure VmInv (d : Nat) (vm : Vm) : Prop where
   stack : StackOk vm.stack
   memory : MemOk vm.memory
   repLen : vm.rep.length ≤ 4096
   repTyped : ∀ s ∈ vm.rep, SlotOk s
-  depth : vm.parentMemory.length ≤ 1
+  depth : vm.parentMemory.length = d
+  depthLe : d ≤ 1
   parents : ∀ pm ∈ vm.parentMemory, MemOk pm
 
 theorem sizeLimit_eq : Stack.sizeLimit = 4096 := rfl
